@@ -6,7 +6,7 @@ generator only INSERTS text (wrapped in /*<V id*/ ... /*V>*/ markers) and perfor
 token-local rewrites R1..R4 (wrapped in /*<D orig D>*/ markers recording what was removed).
 vf/fidelity.py undoes exactly these markers and compares the result with /repo token by token.
 """
-import os
+import json, os
 import re
 import sys
 from dataclasses import dataclass, field
@@ -30,6 +30,7 @@ class Proof:
     ordinal: int
     text: str
     cid: str
+    loop: Optional[int] = None    # `in loop k`: the hint belongs to loop k and goes away with it
 
 
 @dataclass
@@ -71,6 +72,7 @@ class Sidecar:
     insertions: List[Insertion] = field(default_factory=list)
     drops: List[Tuple[str, str, str]] = field(default_factory=list)   # (file, regex, why)
     canary: bool = False
+    fingerprints: Optional[dict] = None
 
 
 HEADER = re.compile(r'^(fn|trusted fn|spec-only fn|external fn)\s+(\S+)\s*::\s*(.*?)\s*::\s*(\w+)\s*(\[[^\]]*\])?\s*$')
@@ -107,7 +109,7 @@ def parse_sidecar(paths: List[str]) -> Sidecar:
                 i += 1
                 continue
             # block directives: `<directive> {` ... matching `}` at column 0
-            m = re.match(r'^(sig|loop\s+\d+|proof\s+(after|before)\s+/(.*)/\s*#(\d+)|proof\s+start|attr\s+.*|ret\s+\w+|'
+            m = re.match(r'^(sig|loop\s+\d+|proof\s+(after|before)\s+/(.*)/\s*#(\d+)(?:\s+in\s+loop\s+(\d+))?|proof\s+start|attr\s+.*|ret\s+\w+|'
                          r'insert\s+\S+\s+\S.*|drop\s+\S+\s+/(.*)/\s*(.*)|rewrite\s+R\d+\s+/.*/\s*=>.*)\s*(\{)?\s*$', s)
             if not m:
                 raise SpecError('%s:%d cannot parse sidecar line: %s' % (path, i + 1, s))
@@ -135,7 +137,8 @@ def parse_sidecar(paths: List[str]) -> Sidecar:
                     cur.proofs.append(Proof('start', '', 1, body, 'proof.start'))
                 else:
                     cur.proofs.append(Proof(m.group(2), m.group(3), int(m.group(4)), body,
-                                            'proof.%s.%d' % (m.group(2), len(cur.proofs))))
+                                            'proof.%s.%d' % (m.group(2), len(cur.proofs)),
+                                            int(m.group(5)) if m.group(5) else None))
             elif head.startswith('attr'):
                 cur.attrs.append(head[4:].strip().rstrip('{').strip())
             elif head.startswith('ret'):
@@ -175,6 +178,9 @@ class GenResult:
     dropped: List[dict]
     clause_ids: Dict[str, dict]
     lost_anchors: List[str]
+    dropped_loops: List[str] = field(default_factory=list)
+    loop_heads: Dict[str, List[str]] = field(default_factory=dict)
+    uncontracted_calls: Dict[str, List[str]] = field(default_factory=dict)
     contracts: Dict[str, dict] = field(default_factory=dict)
 
 
@@ -238,6 +244,11 @@ class Emitter:
             if x is None:
                 linemap[i] = {'k': 'blank'}
         return ''.join(out), linemap
+
+
+def loop_header(toks, lp) -> str:
+    """Normalised text of a loop header: the tokens from loop/while/for up to the opening brace."""
+    return ' '.join(t.text for t in toks[lp.kw_idx:lp.body_open])
 
 
 def strip_inner_docs(src: str) -> str:
@@ -366,6 +377,9 @@ def gen_file(em: Emitter, repo: str, mod: ModSpec, sc: Sidecar, res: dict, unit_
 
     # ---- functions ----
     seen = set()
+    uncontracted = set(f.name for f in fns if not f.in_test and f.has_body
+                       and (sc.contracts.get((fkey, f.ctx, f.name)) is None
+                            or not sc.contracts[(fkey, f.ctx, f.name)].sig.strip()))
     for f in fns:
         if f.in_test or f.ctx in ext_ctx:
             continue
@@ -415,20 +429,54 @@ def gen_file(em: Emitter, repo: str, mod: ModSpec, sc: Sidecar, res: dict, unit_
             add_ins(toks[f.sig_end].start, '\n' + c.sig + '\n', 'sig:%s' % c.label, {'contract': c.label})
         if c.mode != 'verify':
             continue
+        # loops are addressed by their ordinal on the unchanged tree.  When loops have been removed, the remaining
+        # ones are matched to their old ordinals by header text (contracts/loop_fingerprints.json, committed); the
+        # contract of a removed loop, and the hints declared `in loop k`, go away with it.
+        heads = [loop_header(toks, lp) for lp in f.loops]
+        fp = (sc.fingerprints or {}).get('%s::%s' % (fkey, c.label))
+        ordinal_of = {i: i + 1 for i in range(len(f.loops))}     # current index -> ordinal of the contract
+        dropped_loops = set()
+        if fp is not None and len(heads) < len(fp):
+            pos = 0
+            ordinal_of = {}
+            for i, h in enumerate(heads):
+                while pos < len(fp) and fp[pos] != h:
+                    pos += 1
+                if pos >= len(fp):
+                    raise SpecError('%s: the loops of %s no longer match the recorded ones' % (c.src, c.label))
+                ordinal_of[i] = pos + 1
+                pos += 1
+            dropped_loops = set(range(1, len(fp) + 1)) - set(ordinal_of.values())
+            res['dropped_loops'].append('%s: loop(s) %s no longer exist' % (c.label, ', '.join(map(str, sorted(dropped_loops)))))
+        index_of = {o: i for i, o in ordinal_of.items()}
         for k, ltxt in c.loops.items():
-            if k < 1 or k > len(f.loops):
+            if k in dropped_loops:
+                continue
+            if k not in index_of:
                 raise SpecError('%s: loop %d not found in %s (has %d loops)' % (c.src, k, c.label, len(f.loops)))
-            lp = f.loops[k - 1]
+            lp = f.loops[index_of[k]]
             add_ins(toks[lp.body_open].start, '\n' + ltxt + '\n', 'loop%d:%s' % (k, c.label), {'contract': c.label})
         body_s = toks[f.sig_end].end
         body_e = toks[f.body_close].start
         body = src[body_s:body_e]
+        res['loop_heads']['%s::%s' % (fkey, c.label)] = heads
+        # calls of the forms self.f( / Self::f( / f( to functions of this file that have no contract
+        called = set()
+        for ti in range(f.sig_end + 1, f.body_close - 1):
+            t = toks[ti]
+            if t.kind == 'id' and toks[ti + 1].text == '(' and t.text in uncontracted:
+                prev = toks[ti - 1].text
+                prev2 = toks[ti - 2].text if ti >= 2 else ''
+                if (prev == '.' and prev2 == 'self') or (prev == '::' and prev2 == 'Self') or prev not in ('.', '::', 'fn'):
+                    called.add(t.text)
+        if called:
+            res['uncontracted_calls'][c.label] = sorted(called)
         if sc.canary:
             # vacuity canaries: these assertions MUST fail (reachable entry, satisfiable invariants)
             add_ins(body_s, '\nproof { assert(false); }\n', 'canary:%s' % c.label, {'contract': c.label})
             for k, lp in enumerate(f.loops):
-                if (k + 1) in c.loops:
-                    add_ins(toks[lp.body_open].end, '\nproof { assert(false); }\n', 'canaryloop%d:%s' % (k + 1, c.label),
+                if ordinal_of.get(k) in c.loops:
+                    add_ins(toks[lp.body_open].end, '\nproof { assert(false); }\n', 'canaryloop%d:%s' % (ordinal_of[k], c.label),
                             {'contract': c.label})
         for p in c.proofs:
             if p.mode == 'start':
@@ -436,6 +484,8 @@ def gen_file(em: Emitter, repo: str, mod: ModSpec, sc: Sidecar, res: dict, unit_
                     add_ins(body_s, '\n' + p.text.lstrip()[4:] + '\n', '%s:%s' % (p.cid, c.label), {'contract': c.label})
                 else:
                     add_ins(body_s, '\nproof {\n' + p.text + '\n}\n', '%s:%s' % (p.cid, c.label), {'contract': c.label})
+                continue
+            if p.loop is not None and p.loop in dropped_loops:
                 continue
             ms = list(re.finditer(p.pattern, body))
             if len(ms) < p.ordinal:
@@ -642,7 +692,10 @@ def generate(repo: str, mods: List[ModSpec], sidecar_paths: List[str], prelude_p
     sc = parse_sidecar(sidecar_paths)
     sc.canary = canary
     em = Emitter()
-    res = {'under_contract': [], 'external_body': [], 'rewrites': [], 'dropped': [], 'lost_anchors': []}
+    res = {'under_contract': [], 'external_body': [], 'rewrites': [], 'dropped': [], 'lost_anchors': [],
+           'dropped_loops': [], 'loop_heads': {}, 'uncontracted_calls': {}}
+    fpp = os.path.join(os.path.dirname(os.path.dirname(os.path.abspath(__file__))), 'contracts', 'loop_fingerprints.json')
+    sc.fingerprints = json.load(open(fpp)).get('loops', {}) if os.path.exists(fpp) else {}
     head = ''
     for ft in features:
         head += '#![feature(%s)]\n' % ft
@@ -678,4 +731,5 @@ def generate(repo: str, mods: List[ModSpec], sidecar_paths: List[str], prelude_p
                         for c in sc.contracts.values()}
     return GenResult(contracts=res['contracts'], text=text, linemap=linemap, under_contract=res['under_contract'],
                      external_body=res['external_body'], rewrites=res['rewrites'], dropped=res['dropped'],
-                     clause_ids={}, lost_anchors=res['lost_anchors'])
+                     clause_ids={}, lost_anchors=res['lost_anchors'], dropped_loops=res['dropped_loops'],
+                     loop_heads=res['loop_heads'], uncontracted_calls=res['uncontracted_calls'])
